@@ -33,8 +33,28 @@ function clean(v) {
     return v;
 }
 
+// An exception thrown from inside a stream event handler of the code under test would kill the
+// driver; it is routed to the request in flight instead and reported as that request's error.
+let pending_fail = null;
+process.on('uncaughtException', (e) => {
+    if (pending_fail) {
+        let f = pending_fail;
+        pending_fail = null;
+        f(e);
+    }
+});
+
+async function guarded(fn) {
+    try {
+        return await Promise.race([fn(), new Promise((_, reject) => { pending_fail = reject; })]);
+    } finally {
+        pending_fail = null;
+    }
+}
+
 async function do_query_table(req) {
     let A = req.A, B = (req.B === undefined ? null : req.B);
+    let rows_before = A.slice().concat(B === null ? [] : B.slice());
     let out = [], warnings = [], header = [];
     let error = null;
     try {
@@ -42,7 +62,16 @@ async function do_query_table(req) {
     } catch (e) {
         error = err_info(e);
     }
-    return {out: clean(out), header: header.length ? header : null, warnings: warnings, error: error, A_after: clean(A), B_after: clean(B)};
+    // identity checks can only be made on this side of the JSON transport
+    let aliased = out.some(r => rows_before.indexOf(r) != -1);
+    let shared = false;
+    for (let i = 0; i < out.length && !shared; i++) {
+        if (Array.isArray(out[i]) && out.indexOf(out[i]) != i) shared = true;
+    }
+    let rows_after = A.slice().concat(B === null ? [] : B.slice());
+    let rows_replaced = rows_after.length != rows_before.length || rows_after.some((r, i) => r !== rows_before[i]);
+    return {out: clean(out), header: header.length ? header : null, warnings: warnings, error: error, A_after: clean(A), B_after: clean(B),
+            output_aliases_input: aliased, output_records_shared: shared, rows_replaced: rows_replaced};
 }
 
 function bufs_from(hex, cuts) {
@@ -71,9 +100,11 @@ async function read_stream(pieces, cfg) {
     let stream = Readable.from(pieces, {objectMode: false});
     let it = new rbql_csv.CSVRecordIterator(stream, null, cfg.encoding, cfg.delim, cfg.policy, !!cfg.has_header, cfg.comment_prefix || null);
     try {
-        let header = await it.get_header();
-        let records = await it.get_all_records();
-        return {records: records, header: header, warnings: it.get_warnings(), error: null};
+        return await guarded(async () => {
+            let header = await it.get_header();
+            let records = await it.get_all_records();
+            return {records: records, header: header, warnings: it.get_warnings(), error: null};
+        });
     } catch (e) {
         return {records: null, header: null, warnings: null, error: err_info(e)};
     }
@@ -82,9 +113,11 @@ async function read_stream(pieces, cfg) {
 async function read_bulk(file_path, cfg) {
     let it = new rbql_csv.CSVRecordIterator(null, file_path, cfg.encoding, cfg.delim, cfg.policy, !!cfg.has_header, cfg.comment_prefix || null);
     try {
-        let header = await it.get_header();
-        let records = await it.get_all_records();
-        return {records: records, header: header, warnings: it.get_warnings(), error: null};
+        return await guarded(async () => {
+            let header = await it.get_header();
+            let records = await it.get_all_records();
+            return {records: records, header: header, warnings: it.get_warnings(), error: null};
+        });
     } catch (e) {
         return {records: null, header: null, warnings: null, error: err_info(e)};
     }
@@ -94,9 +127,11 @@ async function read_file_stream(file_path, cfg) {
     let stream = fs.createReadStream(file_path, cfg.high_water_mark ? {highWaterMark: cfg.high_water_mark} : undefined);
     let it = new rbql_csv.CSVRecordIterator(stream, null, cfg.encoding, cfg.delim, cfg.policy, !!cfg.has_header, cfg.comment_prefix || null);
     try {
-        let header = await it.get_header();
-        let records = await it.get_all_records();
-        return {records: records, header: header, warnings: it.get_warnings(), error: null};
+        return await guarded(async () => {
+            let header = await it.get_header();
+            let records = await it.get_all_records();
+            return {records: records, header: header, warnings: it.get_warnings(), error: null};
+        });
     } catch (e) {
         return {records: null, header: null, warnings: null, error: err_info(e)};
     }
